@@ -39,6 +39,7 @@ def run(rep: Report, tier: str) -> None:
 	rule_g(rep, idx, nm)
 	rule_h(rep, idx, nm)
 	rule_this_var_depth(rep, idx)
+	rule_number_kinds(rep, idx, nm, gm)
 
 
 def py_key(tok: str, kind: str) -> str:
@@ -670,3 +671,72 @@ def rule_this_var_depth(rep: Report, idx: SourceIndex) -> None:
 		got = all(bool(v[text]) for v in text_conj)
 		what = 'accepts' if got else 'rejects'
 		r.check(got == want, f'tokens:{text}', (pm_.relpath, rets[0].lineno), f'is_decl_this_var {what} the assignment target `{text}` in __init__ (as far as its text goes)' + (': a target deeper than `self.<name>` becomes ONE DeclThisVar leaf named `a.b` — the inner attribute / index / call nodes (and the ThisRef) are not in the tree, where CPython has Attribute(Attribute(Name self, a), b); `self.conf.debug = True`, `self.xs[i].b = v` declare variables called `conf.debug`, `xs.i.b`' if got and not want else ': the plain declaration `self.a = ...` is no longer recognised' if want and not got else ''), unparse(rets[0])[:120])
+
+
+def rule_number_kinds(rep: Report, idx: SourceIndex, nm: NodeModel, gm: GrammarModel) -> None:
+	"""A `number` entry is resolved to the FIRST class of the dispatch table whose match_feature accepts it (Integer before Float). CPython's tree has
+	Constant(int) or Constant(float) by the KIND of the literal, not by the characters it happens to contain: `1e5`, `2E-3` are floats without a
+	decimal point. Decided on representatives of every number terminal of the grammar: the terminal each text belongs to is found with the grammar's own
+	regular expressions, the class test is evaluated (vlib/dsneval.py; `Terminal.match_terminal(via, allow_tags=L)` reads as `terminal in L`), and the
+	first accepting class is compared with the type CPython gives the literal."""
+	import copy
+	import re as _re
+	from vlib import dsneval
+	r = rep.rule('C02/number-literals-classified-by-token-kind', 'for representatives of every number terminal: the first class of the `number` dispatch list whose match_feature accepts the token is Integer for a CPython int and Float for a CPython float', floor=5)
+	classes = nm.tag_to_classes().get('number', [])
+	if len(classes) < 2:
+		r.skip('number', (gm.relpath, 1), f'the tag `number` maps to {len(classes)} node classes')
+		r.floor = 1
+		return
+	terms = [t for t in ('HEX_NUMBER', 'FLOAT_NUMBER', 'DEC_NUMBER', 'OCT_NUMBER', 'BIN_NUMBER', 'IMAG_NUMBER') if gm.term_patterns.get(t) is not None]
+	texts = ['12', '0', '0x1F', '1.5', '1e5', '2E-3', '3e+8', '.5', '1.', '1.5e-3']
+	want_cls = {'int': 'Integer', 'float': 'Float'}
+
+	def terminal_of(text: str) -> str | None:
+		for t in terms:
+			try:
+				if _re.fullmatch(gm.term_patterns[t].to_regexp(), text):
+					return t
+			except Exception:
+				return None
+		return None
+
+	for text in texts:
+		term = terminal_of(text)
+		want = want_cls.get(type(ast.literal_eval(text)).__name__)
+		if term is None or want is None:
+			r.skip(f'number:{text}', (gm.relpath, 1), f'`{text}` matches no number terminal of the grammar')
+			continue
+		chosen = None
+		undecided = False
+		for c in classes:
+			mf = idx.lookup(c, 'match_feature')
+			if mf is None or mf.cls is None or mf.cls.name == 'Node':
+				chosen = chosen or c.name
+				break
+			via = mf.params()[1] if len(mf.params()) > 1 else 'via'
+			rets = [x.value for x in walk_no_nested(mf.node) if isinstance(x, ast.Return) and x.value is not None]
+			if len(rets) != 1:
+				undecided = True
+				break
+			e = copy.deepcopy(rets[0])
+
+			class T(ast.NodeTransformer):
+				def visit_Call(self, n: ast.Call):
+					self.generic_visit(n)
+					if unparse(n.func).endswith('match_terminal'):
+						tags = next((kw.value for kw in n.keywords if kw.arg == 'allow_tags'), n.args[1] if len(n.args) > 1 else None)
+						if isinstance(tags, (ast.List, ast.Tuple)) and all(isinstance(x, ast.Constant) for x in tags.elts):
+							return ast.Constant(value=term in [x.value for x in tags.elts])
+					return n
+			v = dsneval.evaluate(mf.node, T().visit(e), {f'{via}.tokens': text})
+			if v is dsneval.UNKNOWN:
+				undecided = True
+				break
+			if v:
+				chosen = c.name
+				break
+		if undecided:
+			r.skip(f'number:{text}', (gm.relpath, 1), f'a match_feature of {[c.name for c in classes]} is outside the evaluated subset')
+			continue
+		r.check(chosen == want, f'number:{text}', classes[0].where, f'the literal `{text}` (terminal {term}) is resolved to {chosen}: CPython parses it as a {type(ast.literal_eval(text)).__name__} — Constant({text}) — so the node tree has an {chosen} where the reference tree has a {want} (and `scale = {text}` is declared `int scale`)', f'{text}: {term} -> {chosen}')
